@@ -615,6 +615,12 @@ POOL_SRC = ["[]", "[1, 2, 3]", "[3, 1, 2]", "[[1], [2]]", "<<>>", "<<1, 2>>", "<
             "<<<'a' => 1>>>", "<*m=1, n=[1]*>", "'abc'", "0", "2", "NULL", "fn(x) x"]
 MODULE_FILES_DIR = os.path.join(REPO, "src", "ckl", "modules")
 SKIP_FUNCS = {"exit", "run", "sleep", "execute"}      # would leave / block the process
+# functions whose documented result holds an argument (HeapOps.tla HolderFns and the mutators): only
+# used to keep the string drift list short; containers are judged by Heap_Trace
+HOLDER_NAMES = {"add", "substitute", "new", "append", "append_all", "insert_at", "put",
+                "operator @1 + @2", "operator [@1, @2]", "operator <<<@1 => @2>>>", "operator [...@1, @2]",
+                "operator [...@1, ...@2]", "operator [@2, ...@1, @3]", "operator (fn(args...) args)(@1, @2)",
+                "operator string(@1) + @2"}
 
 
 # operators and syntax forms that take values ("Operators ... never modify the
@@ -708,6 +714,33 @@ def arg_tuples(arity, maxar, rng, cap):
     return tuples
 
 
+def _children(v):
+    if isinstance(v, (V.ValueList, V.ValueSet)):
+        return list(v.value)
+    if isinstance(v, V.ValueMap):
+        return list(v.value.keys()) + list(v.value.values())
+    if isinstance(v, V.ValueObject):
+        return list(v.value.values())
+    return []
+
+
+def shares(res, targets):
+    """Which of the argument values `targets` ({id(host object): pool position}) the
+    value `res` IS and which it HOLDS (reaches below its top level): (is, holds) as
+    sorted lists of pool positions.  Identity of host objects, not equality."""
+    holds, seen = set(), {id(res)}
+    todo = _children(res)
+    while todo:
+        x = todo.pop()
+        if id(x) in seen:
+            continue
+        seen.add(id(x))
+        if id(x) in targets:
+            holds.add(targets[id(x)])
+        todo.extend(_children(x))
+    return ([targets[id(res)]] if id(res) in targets else []), sorted(holds)
+
+
 def _sweep_chunk(job):
     """job: [(label, expr, name, tuples)] -> (events with rendered strings, stats)"""
     signal.signal(signal.SIGALRM, _alarm)
@@ -762,12 +795,30 @@ def _sweep_chunk(job):
             if o[0] == "timeout":
                 aliasres.setdefault("timeout:" + name, src)
             post = snapshot()
-            events.append({"op": "call", "fn": name, "args": list(tup), "post": post,
-                           "src": f"{label}: {src}", "expr": expr, "outcome": o[0]})
-            if o[0] == "val" and isinstance(o[1], cont):
+            # what the call returned against the containers passed to it: is it one
+            # of them, does it hold one of them (identity of the host objects)
+            r_is, r_holds = [], []
+            if o[0] == "val":
+                args_c, args_s = {}, {}
                 for i in set(tup):
-                    if env.get(f"p{i}", None) is o[1]:
+                    v = env.get(f"p{i}", None)
+                    if isinstance(v, cont):
+                        args_c[id(v)] = i
+                    elif isinstance(v, V.ValueString):
+                        args_s[id(v)] = i
+                if args_c:
+                    r_is, r_holds = shares(o[1], args_c)
+                    if r_is:
                         aliasres.setdefault(name, src)
+                if args_s and isinstance(o[1], (V.ValueString,) + cont):
+                    s_is, s_holds = shares(o[1], args_s)
+                    if s_is:
+                        aliasres.setdefault("str-is:" + name, src)
+                    elif s_holds and name not in HOLDER_NAMES:
+                        aliasres.setdefault("str-holds:" + name, src)
+            events.append({"op": "call", "fn": name, "args": list(tup), "post": post,
+                           "is": r_is, "holds": r_holds,
+                           "src": f"{label}: {src}", "expr": expr, "outcome": o[0]})
             if post != cur or name in ("append", "append_all", "insert_at", "delete_at", "remove", "put"):
                 cur = fresh()
     return events, stats, aliasres
@@ -803,14 +854,22 @@ def sweep(run, rng, maxar, cap, pool):
                 events.append({"op": "new", "pool": [ident(s) for s in e["pool"]]})
             else:
                 events.append({"op": "call", "fn": e["fn"], "args": e["args"],
-                               "post": [ident(s) for s in e["post"]]})
+                               "post": [ident(s) for s in e["post"]],
+                               "is": e["is"], "holds": e["holds"]})
             meta.append(e)
     for name in sorted(aliasres):
         if name.startswith("timeout:"):
             run.drift("B-call-did-not-finish-in-3s", {"fn": name[8:], "call": aliasres[name]})
+        elif name.startswith("str-is:"):
+            # strings can be changed in place (`s[i] = ch`) but the statement names lists, sets,
+            # maps and objects only: a string result that is the argument string is recorded, not judged
+            run.drift("B-string-result-is-its-argument", {"fn": name[7:], "call": aliasres[name]})
+        elif name.startswith("str-holds:"):
+            run.drift("B-result-holds-its-string-argument", {"fn": name[10:], "call": aliasres[name]})
         elif name not in ("append", "append_all", "insert_at", "delete_at", "remove", "put"):
             run.drift("B-result-is-its-argument", {"fn": name, "call": aliasres[name]})
-    stats["result_is_argument_fns"] = sorted(k for k in aliasres if not k.startswith("timeout:"))
+    stats["result_is_argument_fns"] = sorted(k for k in aliasres if ":" not in k)
+    stats["string_result_is_argument_fns"] = sorted(k[7:] for k in aliasres if k.startswith("str-is:"))
     stats["timeout_calls"] = sorted(v for k, v in aliasres.items() if k.startswith("timeout:"))
     return funcs, events, meta, table, stats
 
@@ -842,6 +901,15 @@ def validate_sweep(run, events, meta, table, label="Heap_Trace validation of the
         nbad += 1
         if meta is None:
             run.violation(f"B:event {k}", f"{b['why']}: recorded call rejected by Heap_Trace", {"kind": "none"})
+            continue
+        if b["why"] == "result-not-independent-of-its-argument":
+            src = meta[k]["src"]
+            shared = ([f"the result is p{i} itself" for i in events[k]["is"]]
+                      + [f"the result holds p{i} itself" for i in events[k]["holds"]])
+            run.violation("B-result:" + src,
+                          f"{b['why']}: `{src}`: " + "; ".join(shared) + " (a later change of one shows in the other)",
+                          {"kind": "call", "label": src.split(": ")[0], "call": src.split(": ", 1)[1],
+                           "expr": meta[k]["expr"], "fn": events[k]["fn"], "args": events[k]["args"]})
             continue
         pre = [table[i - 1] for i in events[k - 1]["post" if events[k - 1]["op"] == "call" else "pool"]]
         post = [table[i - 1] for i in events[k]["post"]]
@@ -997,5 +1065,6 @@ def replay(run, case):
             if e["op"] == "new":
                 evs.append({"op": "new", "pool": ids})
             else:
-                evs.append({"op": "call", "fn": e["fn"], "args": e["args"], "post": ids})
+                evs.append({"op": "call", "fn": e["fn"], "args": e["args"], "post": ids,
+                            "is": e["is"], "holds": e["holds"]})
         validate_sweep(run, evs, events, table, "Heap_Trace validation of one replayed call")
